@@ -205,7 +205,7 @@ FNS = [
        loops={0: "invariant old(self).wf(), self.wf(), self.log@.cancels == old(self).log@.cancels, self.log@.cancelled == old(self).log@.cancelled, self.log@.cancel_alls == old(self).log@.cancel_alls,"
                  " old(self).log@.empty_obs.subset_of(self.log@.empty_obs), forall|id: int| 0 <= id < MAX_STREAMS ==> self.log@.wakes[id] >= old(self).log@.wakes[id],"}),
     # C06/C07: end_stream cancels its one target only after the flush, and answers true only if the id was seen vacant (stream dropped)
-    fn("end_stream", props=["C06", "C07"],
+    fn("end_stream", props=["C06", "C07", "C10"],
        attrs="#[verifier::exec_allows_no_decreases_clause]",
        sig="pub fn end_stream(&mut self, stream_id: u32, timeout: Duration, pending_items_counter: &PendingCounter) -> (r: bool)",
        sig_anchor=r"pub async fn end_stream\(&self, stream_id: u32, timeout: Duration, pending_items_counter: impl Fn\(\) -> u32\) -> bool",
